@@ -170,7 +170,7 @@ def prog_case(ctx, i):
     def res_of(lr):
         return lr.lib_link if (lr.lib_link is not None and not lr.lib_link.ok) else lr.link
 
-    ncfg = ctx.pick(7, 30)
+    ncfg = ctx.pick(7, 25)
     for j in range(ncfg):
         kind = r.choice(kinds)
         opts = pick_opts(r)
@@ -447,7 +447,7 @@ def main(ctx):
     ctx.assumptions = ["GNU ld 2.40 linking the same inputs with the ld-compatible subset of the options decides 'valid input'",
                        "only wild's own accounting messages count; other wild rejections are recorded and inconclusive"]
     tools.wild()
-    na, nb = ctx.pick(14, 150), ctx.pick(260, 4500)
+    na, nb = ctx.pick(14, 100), ctx.pick(260, 3500)
     jobs = [("pin", 0)] + [("A", i) for i in range(na)] + [("B", i) for i in range(nb)]
     if ctx.replay is not None:
         c = str(ctx.replay.get("case"))
